@@ -175,6 +175,10 @@ GARBAGE = ["   ", "not json", "{", "[1,2]", "null", "{}", '{"action_type": "Acti
            '{"action_type": "ActionType.ActionType.ScanNetwork", "parameters": {"source_host": {"ip": "192.168.2.2"}, "target_network": {"ip": "192.168.1.0", "mask": 24}}}',
            '{"action_type": "xActionType.JoinGame", "parameters": {"agent_info": {"name": "x", "role": "Attacker"}}}',
            '{"action_type": "scannetwork", "parameters": {}}', " \n", "\t",
+           # the enum prefix somewhere else than once at the start: not the name of a supported type
+           '{"action_type": "ScanActionType.Network", "parameters": {"source_host": {"ip": "192.168.2.2"}, "target_network": {"ip": "192.168.1.0", "mask": 24}}}',
+           '{"action_type": "QuitActionType.Game", "parameters": {}}', '{"action_type": "ResetGameActionType.", "parameters": {}}',
+           '{"action_type": "ActionType.QuitGameActionType.", "parameters": {}}',
            # addresses that decode (ipaddress accepts numbers) but are not text: refused as bad requests
            '{"action_type": "ActionType.FindData", "parameters": {"source_host": {"ip": 3232235777}, "target_host": {"ip": 3232235777}}}',
            '{"action_type": "ActionType.FindServices", "parameters": {"source_host": {"ip": "192.168.2.2"}, "target_host": {"ip": true}}}',
@@ -201,7 +205,7 @@ GARBAGE += TRAILING
 
 
 # agent names are arbitrary text chosen by the agent: empty, with path separators, dots, a NUL, non-ASCII, longer than a file name may be
-ODD_NAMES = ["", "a/b", "../up", "..", "nul\x00byte", "back\\slash", "n\u00e4me \u4e2d", "x" * 300, "\u00fc" * 200, " lead", "a_Attacker"]
+ODD_NAMES = ["lone\ud83d", "", "a/b", "../up", "..", "nul\x00byte", "back\\slash", "n\u00e4me \u4e2d", "x" * 300, "\u00fc" * 200, " lead", "a_Attacker"]
 
 
 # roles that are not allowed: unknown names and values that are not even text (a JSON list, object, number, null, boolean)
@@ -488,6 +492,8 @@ def directed(rng, k):
             _leave(S, a, "eof"); S.settle()
             _leave(S, dd, "quit"); S.settle()
         c, e = ("10.2.19.3", 3), ("10.2.19.4", 4)
+        if variant == 1:
+            c = ("fe80::1c", 45019, 0, 3)        # an IPv6 peer: its address is a 4-tuple (host, port, flow info, scope)
         S.connect(c); S.connect(e); S.settle()
         _join(S, c, "att2", "Attacker"); _join(S, e, "def2", "Defender"); S.settle()
         _scan(S, c); S.settle()
@@ -535,6 +541,8 @@ def directed(rng, k):
         g0["known_hosts"] = ["192.168.1.2"]                              # reached by scanning 192.168.1.0/24, not by 192.168.2.0/24
         A["goal"] = dict(g0, description="goal", is_any_part_of_goal_random=False)
         cfg["coordinator"]["agents"]["Defender"].pop("max_steps", None)
+        if variant == 1:
+            cfg["env"]["rewards"] = {"step": -1, "success": 0, "fail": -10}       # a success reward of nothing is still the SUCCESS reward
         S = CR.Session(cfg, draw=draw)
         a, dd = ("10.2.17.1", 1), ("10.2.17.2", 2)
         S.connect(a); S.connect(dd); S.settle()
@@ -822,7 +830,7 @@ def directed(rng, k):
         _join(S, b, "b", rng.choice(["Attacker", "Defender"])); S.settle()
         _join(S, a, "a2", "Attacker"); S.settle()                     # second join of a joined agent
         _scan(S, a); S.settle()
-        for gb in rng.sample(GARBAGE, 5) + [x for x in GARBAGE if '"extra"' in x or '"port"' in x or '"mask": 24}, "target_host"' in x or '"name": "lan"' in x or '"team"' in x or "3232235777" in x] + TRAILING:
+        for gb in rng.sample(GARBAGE, 5) + [x for x in GARBAGE if '"extra"' in x or '"port"' in x or '"mask": 24}, "target_host"' in x or '"name": "lan"' in x or '"team"' in x or "3232235777" in x or "ActionType.\"" in x or "ActionType.Network" in x or "ActionType.Game" in x] + TRAILING:
             S.send(rng.choice([a, b]), gb, {"kind": "garbage"}); S.settle()
         t, d = gen_invalid_game(rng)
         S.send(b, t, d); S.settle()
